@@ -283,7 +283,7 @@ func genCase(r *vlib.PRNG, round, slot int) caseDesc {
 // canonicalCases do not depend on the seed. The first one is the program of
 // the design-phase spike (200 x (4 KiB H2D, D2H) from one goroutine on the
 // default r9nano timing platform).
-func canonicalCases(reps int) []caseRuns {
+func canonicalCases(reps, nB2 int) []caseRuns {
 	c := caseDesc{Name: "canon-copyloop-200x4KiB-r9nano", Workload: "copyloop", Params: map[string]int{"n": 200, "bytes": 4096},
 		Timing: true, GPUs: []int{1}, RandSeed: 1}
 	runs := []runDesc{
@@ -307,16 +307,51 @@ func canonicalCases(reps int) []caseRuns {
 		{Family: "A", Delays: true, DelaySeed: 0xC05A3, GOMAXPROCS: 2, GOGC: "10"},
 		{Family: "A", Delays: true, DelaySeed: 0xC05A4, GOMAXPROCS: 4, GOGC: "off"},
 	}
-	for i := 0; i < 5; i++ {
+	for i := 0; i < nB2; i++ {
 		runs2 = append(runs2, runDesc{Family: "B", Delays: true, DelaySeed: 0xC05B10 + uint64(i), GOMAXPROCS: gomaxprocsPool[i%4], GOGC: "100"})
 	}
 	runs2 = append(runs2, runDesc{Family: "A", Delays: true, DelaySeed: 0xC05A6, GOMAXPROCS: 2, GOGC: "100", Reps: reps})
-	return []caseRuns{{Case: c, Runs: runs, Canonical: true}, {Case: c2, Runs: runs2, Canonical: true}}
+	out := []caseRuns{{Case: c, Runs: runs, Canonical: true}, {Case: c2, Runs: runs2, Canonical: true}}
+	return append(out, copyHandoffCanon()...)
+}
+
+// copyHandoffCanon: the seed-independent cases of the "copy hand-off" family
+// (r9nano timing, 2 and 4 plain GPUs, and a platform with a unified device).
+// The host program makes blocking copies complete on an L2 flush reply and
+// looks at its destination buffer immediately when the call returns; the host
+// conditions add a stall of the engine goroutine where the driver reports the
+// copy command complete (tracer on the Driver at task end), GOMAXPROCS >= 2,
+// and the -race build.
+func copyHandoffCanon() []caseRuns {
+	mk := func(name string, gpus []int, unified bool, params map[string]int, runs []runDesc) caseRuns {
+		return caseRuns{Case: caseDesc{Name: name, Workload: "copyhandoff", Params: params, Timing: true, GPUs: gpus, Unified: unified, RandSeed: 1},
+			Runs: runs, Canonical: true}
+	}
+	return []caseRuns{
+		mk("canon-copyhandoff-r9nano-gpus1+2", []int{1, 2}, false, map[string]int{"rounds": 2, "h2d_every": 2, "kernel_bytes": 655360, "seed": 1}, []runDesc{
+			{Family: "A", Delays: true, DelaySeed: 0xC05C1, GOMAXPROCS: 4, GOGC: "100"},
+			{Family: "B", Delays: false, GOMAXPROCS: 2, GOGC: "10", CopyEndStallUS: 3000},
+			{Family: "B", Delays: true, DelaySeed: 0xC05C2, GOMAXPROCS: 16, GOGC: "off", CopyEndStallUS: 1500},
+		}),
+		mk("canon-copyhandoff-r9nano-gpus1+2+3+4", []int{1, 2, 3, 4}, false, map[string]int{"rounds": 2, "h2d_every": 9, "kernel_bytes": 524288, "seed": 2}, []runDesc{
+			{Family: "A", Delays: true, DelaySeed: 0xC05C3, GOMAXPROCS: 2, GOGC: "100"},
+			{Family: "B", Delays: false, GOMAXPROCS: 4, GOGC: "100", CopyEndStallUS: 3000},
+		}),
+		mk("canon-copyhandoff-r9nano-unified1+2", []int{1, 2}, true, map[string]int{"rounds": 1, "h2d_every": 9, "kernel_bytes": 524288, "seed": 3}, []runDesc{
+			{Family: "A", Delays: true, DelaySeed: 0xC05C5, GOMAXPROCS: 4, GOGC: "100"},
+			{Family: "B", Delays: false, GOMAXPROCS: 4, GOGC: "100", CopyEndStallUS: 3000},
+		}),
+		// shortest program for the (about ten times slower) -race build
+		mk("canon-copyhandoff-short-r9nano-gpus1+2", []int{1, 2}, false, map[string]int{"rounds": 1, "h2d_every": 9, "kernel_bytes": 458752, "seed": 1}, []runDesc{
+			{Family: "A", Delays: true, DelaySeed: 0xC05C6, GOMAXPROCS: 2, GOGC: "100"},
+			{Family: "B", Delays: false, GOMAXPROCS: 4, GOGC: "100", Race: true, CopyEndStallUS: 2000},
+		}),
+	}
 }
 
 func buildCases(c *vlib.Check) (cases []caseRuns, par []caseRuns) {
 	reps := c.N(2, 3)
-	cases = canonicalCases(reps)
+	cases = canonicalCases(reps, c.N(3, 5))
 	base := c.Rand("cases")
 	rounds := c.N(1, 5)
 	k := c.N(4, 8)
@@ -325,11 +360,45 @@ func buildCases(c *vlib.Check) (cases []caseRuns, par []caseRuns) {
 		for slot := 0; slot < 7; slot++ {
 			r := base.ForkN(fmt.Sprintf("round%d", round), slot)
 			cd := genCase(r, round, slot)
-			runs := makeRuns(r.Fork("runs"), k, race, reps)
+			slotRace := race
+			if slot == 4 && !c.Thorough() {
+				slotRace = 0 // quick: the -race run of the tiny-kernel program was the longest child; the copy hand-off family has a race run instead
+			}
+			runs := makeRuns(r.Fork("runs"), k, slotRace, reps)
 			if slot == 6 {
 				// the member order of a unified device is decided once per process:
-				// more runs, most of them judged bit for bit
-				runs = makeRunsSplit(r.Fork("runs"), k+2, k/2+2, race, reps)
+				// more runs (thorough), most of them judged bit for bit; the
+				// in-process repetitions draw the order again
+				extra := c.N(0, 2)
+				runs = makeRunsSplit(r.Fork("runs"), k+extra, k/2+1+extra/2, race, reps)
+			}
+			cases = append(cases, caseRuns{Case: cd, Runs: runs})
+		}
+		if c.Thorough() { // seeded members of the copy hand-off family
+			r := base.ForkN(fmt.Sprintf("round%d", round), 7)
+			gp := [][]int{{1, 2}, {1, 2, 3, 4}, {1, 2}, {1, 2, 3, 4}, {1, 2}}[round%5]
+			unified := round%5 == 2
+			cd := caseDesc{Workload: "copyhandoff", Timing: true, GPUs: gp, Unified: unified, RandSeed: int64(1 + r.Intn(1000)),
+				Params: map[string]int{"rounds": r.Range(3, 5), "h2d_every": pick(r, 2, 3), "kernel_bytes": pick(r, 524288, 655360), "seed": r.Intn(1000)}}
+			cd.Name = fmt.Sprintf("r%d-s7-copyhandoff[kernel_bytes=%d,rounds=%d,seed=%d]-r9nano-gpus%d-unified=%v", round, cd.Params["kernel_bytes"], cd.Params["rounds"], cd.Params["seed"], len(gp), unified)
+			perm := r.Perm(len(gomaxprocsPool))
+			var runs []runDesc
+			for i := 0; i < 5; i++ {
+				h := hostCond(r, i, perm)
+				h.DelaySeed = r.Uint64()
+				switch i {
+				case 0:
+					h.Family, h.Delays = "A", true
+				case 1:
+					h.Family = "B"
+				default:
+					h.Family, h.Delays, h.CopyEndStallUS = "B", i == 3, pick(r, 500, 1500, 3000)
+					if h.GOMAXPROCS < 2 {
+						h.GOMAXPROCS = 2
+					}
+				}
+				h.Race = i == 4 && !unified && len(gp) == 2
+				runs = append(runs, h)
 			}
 			cases = append(cases, caseRuns{Case: cd, Runs: runs})
 		}
@@ -525,6 +594,14 @@ func (j *judge) judgeCase(cr caseRuns, recs []runRecord, serialRef *runRecord) {
 		c.Distinct("platform", fmt.Sprintf("%s|%s|gpus=%v|unified=%v", cr.Case.GPUType, cr.Case.Arch, cr.Case.GPUs, cr.Case.Unified))
 	}
 
+	// ---- copy hand-off programs and host races on application buffers ----
+	j.judgeCopies(cr, ok)
+	for _, rr := range ok {
+		if rr.Job.Run.Race && rr.Races > 0 {
+			j.judgeRaceReports(cr, rr)
+		}
+	}
+
 	// ---- repetitions inside one process: repetition k against repetition 1 ----
 	for _, rr := range ok {
 		if rr.Job.Run.Reps > 1 {
@@ -680,6 +757,137 @@ func prefixed(whats []string) []string {
 	return out
 }
 
+// judgeCopies: every blocking D2H observed by a copy hand-off program must have
+// delivered its data when the call returned (the snapshot the application took
+// immediately equals the one taken after a quiescent point) and the delivered
+// data must be the same in every run of the case.
+func (j *judge) judgeCopies(cr caseRuns, ok []runRecord) {
+	c := j.c
+	var ref *runRecord
+	for i := range ok {
+		if len(ok[i].Res.Copies) > 0 && (ref == nil || (ok[i].Job.Run.Family == "A" && ref.Job.Run.Family != "A")) {
+			ref = &ok[i]
+		}
+	}
+	if ref == nil {
+		return
+	}
+	for _, rr := range ok {
+		for k, v := range rr.Res.CopyEnds {
+			if strings.HasSuffix(k, "|*protocol.FlushReq") {
+				c.Count("copy_commands_completed_on_flush_reply", v)
+			}
+			c.Count("copy_commands_traced", v)
+		}
+		c.Count("engine_stalls_at_copy_command_end", rr.Res.CopyEndStalls)
+		if len(rr.Res.Copies) == 0 {
+			continue
+		}
+		if rr.Job.Run.CopyEndStallUS > 0 && rr.Job.Run.GOMAXPROCS >= 2 {
+			c.Count("copy_handoff_runs_with_stall_and_gomaxprocs_ge_2", 1)
+		}
+		if len(rr.Res.Copies) != len(ref.Res.Copies) {
+			c.Violation("C05|copy-handoff|different-number-of-copies", fmt.Sprintf("case %s: runs observed %d vs %d blocking copies", cr.Case.Name, len(ref.Res.Copies), len(rr.Res.Copies)),
+				j.witness(cr, *ref, rr, nil))
+			continue
+		}
+		for k, cp := range rr.Res.Copies {
+			onFlush := cp.CompletedOn == "*protocol.FlushReq"
+			if cp.Immediate == "" { // H2D: nothing to read back at this point
+				if onFlush {
+					c.Count("observed_h2d_completed_on_flush_reply", 1)
+				}
+				continue
+			}
+			c.Count("observed_d2h_copies", 1)
+			if onFlush {
+				c.Count("observed_d2h_completed_on_flush_reply", 1)
+				if rr.Job.Run.CopyEndStallUS > 0 && rr.Job.Run.GOMAXPROCS >= 2 {
+					c.Count("observed_d2h_on_flush_reply_with_stall", 1)
+				}
+				c.Nontrivial(fmt.Sprintf("%s|%s|copy%d", cr.Case.Name, rr.Job.Run.hostKey(), k))
+			}
+			wit := func() map[string]any {
+				return j.witness(cr, *ref, rr, map[string]any{"copy": cp, "copy_in_reference_run": ref.Res.Copies[k]})
+			}
+			if cp.Immediate != cp.Settled {
+				c.Violation("C05|A|buffer|differs-immediately-after-return",
+					fmt.Sprintf("case %s: the destination of a blocking MemCopyD2H (%d bytes from GPU %d, command completed on %s) read immediately after the call returned differs from the same buffer after a quiescent point: the call returned before the data was delivered, so what the application sees depends on host scheduling",
+						cr.Case.Name, cp.Size, cp.GPU, cp.CompletedOn), wit())
+			}
+			if cp.Settled != ref.Res.Copies[k].Settled {
+				c.Violation("C05|A|buffer|d2h-destination-differs-between-runs",
+					fmt.Sprintf("case %s: the data delivered by a blocking MemCopyD2H (%d bytes from GPU %d) differs between runs that differ only in host conditions", cr.Case.Name, cp.Size, cp.GPU), wit())
+			}
+		}
+	}
+}
+
+var reRaceAccess = regexp.MustCompile(`(?m)^(Read|Write|Previous read|Previous write|Atomic read|Atomic write|Previous atomic read|Previous atomic write) at 0x[0-9a-f]+ by [^\n]*:\n((?:  .*\n)+)`)
+var reRaceFunc = regexp.MustCompile(`(?m)^  ([^\s()]+(?:\([^)]*\))?[^\s()]*)\(\)`)
+
+// judgeRaceReports: the race detector is a host condition, not the oracle of
+// this property -- except for one kind of report: application (harness
+// workload) code touching its own host buffer after a blocking driver call
+// returned, racing with driver code touching the same buffer. Then the
+// host-visible result depends on host scheduling.
+func (j *judge) judgeRaceReports(cr caseRuns, rr runRecord) {
+	c := j.c
+	files, _ := filepathGlob(rr.Out.Dir + "/race.*")
+	for _, f := range files {
+		data, err := os.ReadFile(f)
+		if err != nil {
+			continue
+		}
+		for _, rep := range strings.Split(string(data), "==================") {
+			if !strings.Contains(rep, "WARNING: DATA RACE") {
+				continue
+			}
+			c.Count("race_reports_parsed", 1)
+			acc := reRaceAccess.FindAllStringSubmatch(rep, -1)
+			if len(acc) < 2 {
+				continue
+			}
+			appIdx, drvIdx := -1, -1
+			for i, a := range acc[:2] {
+				if strings.Contains(a[2], "  main.(*copyHandoff)") || strings.Contains(a[2], "  main.(*wrapper)") || strings.Contains(a[2], "  main.(*tinyKernels)") ||
+					strings.Contains(a[2], "  main.(*copyLoop)") || strings.Contains(a[2], "  main.(*memCopy)") {
+					appIdx = i
+				} else if strings.Contains(a[2], "mgpusim/v4/amd/driver.") {
+					drvIdx = i
+				}
+			}
+			if appIdx < 0 || drvIdx < 0 {
+				continue
+			}
+			drvFn := "?"
+			for _, m := range reRaceFunc.FindAllStringSubmatch(acc[drvIdx][2], -1) {
+				if strings.Contains(m[1], "mgpusim/v4/amd/driver.") {
+					drvFn = m[1][strings.LastIndex(m[1], "/")+1:]
+					break
+				}
+			}
+			appFn := "?"
+			for _, m := range reRaceFunc.FindAllStringSubmatch(acc[appIdx][2], -1) {
+				if strings.HasPrefix(m[1], "main.") {
+					appFn = m[1]
+					break
+				}
+			}
+			key := "C05|host-race|" + appFn + "|" + drvFn
+			what := fmt.Sprintf("case %s: race detector: application code (%s, %s) and driver code (%s, %s) access the same host buffer without synchronisation", cr.Case.Name, appFn, strings.ToLower(acc[appIdx][1]), drvFn, strings.ToLower(acc[drvIdx][1]))
+			if strings.Contains(strings.ToLower(acc[drvIdx][1]), "write") && strings.Contains(acc[drvIdx][2], "encoding/binary.Read") {
+				key = "C05|host-race|d2h-destination-written-after-return"
+				what = fmt.Sprintf("case %s: race detector: the driver (%s) writes the destination buffer of a blocking MemCopyD2H without synchronisation with the application reading it after the call returned (%s): the data the application sees depends on host scheduling", cr.Case.Name, drvFn, appFn)
+			}
+			if len(rep) > 5000 {
+				rep = rep[:5000]
+			}
+			c.Violation(key, what, map[string]any{"case": cr.Case, "runs": cr.Runs, "run": rr.Job.Run, "race_report": rep})
+		}
+	}
+}
+
 // judgeRepetitions compares the 2nd.. execution of a simulation inside one
 // process with the first execution in that process (which itself is compared
 // with the fresh-process runs of the case like every family-A run). Every
@@ -799,7 +1007,7 @@ func parentMain() {
 		cases, par = []caseRuns{*replay}, nil
 	}
 	if os.Getenv("C05_ONLY_CANONICAL") != "" {
-		cases, par = canonicalCases(c.N(2, 3)), nil
+		cases, par = canonicalCases(c.N(2, 3), c.N(3, 5)), nil
 	}
 	needRace := false
 	for _, cr := range cases {
@@ -888,6 +1096,8 @@ func parentMain() {
 		"metric_rows_compared": int64(c.N(5000, 100000)), "handoffs": int64(c.N(500, 5000)), "B_injections_into_running_engine": int64(c.N(20, 200)),
 		"runs_race_build": int64(c.N(3, 30)), "runs_taskset_pinned": int64(c.N(3, 30)), "parallel_engine_buffer_comparisons": int64(c.N(2, 10)),
 		"in_process_repetition_pairs_compared": int64(c.N(7, 60)),
+		// the copy hand-off family reached its target: blocking D2H copies whose command completed on a flush reply
+		"observed_d2h_completed_on_flush_reply": int64(c.N(8, 60)), "observed_d2h_on_flush_reply_with_stall": int64(c.N(4, 30)),
 	}
 	if restricted { // a single case: only require that it was compared at all
 		minNT = 2
@@ -902,6 +1112,7 @@ func parentMain() {
 			"distinct_nontrivial = distinct (case, host condition) pairs of completed runs with >= 10 application->engine hand-offs and >= 100 metric rows, compared against another run of the same case",
 		Assumptions: []string{
 			"in-process repetitions: one family-A child per case executes the simulation 2 (thorough: 3) times on a fresh runner.Runner each, flags parsed once, as amd/tests/deterministic does; execution k is compared with execution 1 of that process (buffers without process ids, absolute engine times of the per-simulation engine, every metric row of the per-simulation sqlite file), execution 1 with the fresh-process runs",
+			"copy hand-off family: the last reply of a copy command is observed through a tracer on the Driver (request tasks of the command's task); a blocking D2H must have delivered its data when it returns: the application's immediate snapshot of the destination equals the snapshot after a quiescent point and the one of the plain run; race reports are judged only when application code and driver code touch the same host buffer",
 			"one application goroutine per simulation (runner.Run with one benchmark); serial engine except in the parallel-engine comparison, where only buffers are compared",
 			"identical inputs: //go:debug randseednop=0 + rand.Seed(case seed) in every child; fresh process per run",
 			"only Engine.CurrentTime(), the rows (location, what, value, unit) of mgpusim_metrics and the live device buffers are compared; wall-clock fields, ids and exec_info are not",
